@@ -912,10 +912,12 @@ func TestC05(t *testing.T) {
 		}
 	}
 
-	c05QueueIds(t, r)
+	fa := c05QueueIds(t, r)
 	// appended AFTER everything else so that the random stream of the cases above is unchanged
 	c05RelayFilter(r)
 	c05UpForgery(r)
+	// keeper layer of the bridge batches on the same three-chain app (c05_deploy_test.go)
+	c05Deployments(t, r, fa)
 }
 
 // ---------- relay filter: what is offered to relayers carries an elected estimate ----------
@@ -1086,7 +1088,7 @@ func c05CompassABI(t *testing.T) string {
 	return string(c05RepoFile(t, "x/evm/keeper/testdata/sample-abi.json"))
 }
 
-func c05QueueIds(t *testing.T, r *Rec) {
+func c05QueueIds(t *testing.T, r *Rec) *FullApp {
 	fa := NewFullApp(t, FullAppOpts{NumValidators: 4, NumUsers: 1, Seed: r.Seed})
 	chains := []string{"c05-a", "c05-b", "c05-c"}
 	abiJSON := c05CompassABI(t)
@@ -1315,4 +1317,5 @@ func c05QueueIds(t *testing.T, r *Rec) {
 			}
 		}
 	}
+	return fa
 }
